@@ -2,6 +2,7 @@
 C06 — swap output is the constant-product price less commission, within one unit.
 -/
 import Halo.Proofs.C01
+import Halo.Proofs.C06M
 
 namespace Halo.Props.C06
 open Halo
@@ -18,6 +19,16 @@ theorem computeSwap_mono {x y a a' c n s k n' s' k' : Nat}
     (h : computeSwap x y a c = .ok (n, s, k)) (h' : computeSwap x y a' c = .ok (n', s', k'))
     (hc : c ≤ E) (ha : a ≤ a') : n ≤ n' :=
   Halo.C01.mono h h' hc ha
+
+/-- the output never decreases when the ask reserve is deeper (same offer reserve, offer and rate) -/
+theorem computeSwap_mono_ask {x y y' a c n s k n' s' k' : Nat}
+    (h : computeSwap x y a c = .ok (n, s, k)) (h' : computeSwap x y' a c = .ok (n', s', k'))
+    (hc : c ≤ E) (hy : y ≤ y') : n ≤ n' :=
+  Halo.C01.mono_ask h h' hc hy
+
+/-- non-vacuity of `computeSwap_mono_ask`: a deeper ask reserve, a strictly larger output -/
+example : computeSwap 1000000 2000000 1000 3000000000000000 = .ok (1993, 2, 5) ∧
+    computeSwap 1000000 3000000 1000 3000000000000000 = .ok (2989, 3, 8) := by decide
 
 /-- the three results always fit the 128-bit return type and the commission never exceeds the gross -/
 theorem computeSwap_range {x y a c n s k : Nat}
